@@ -53,6 +53,12 @@ func c14Oracle(p *Plan) *Verdict {
 			v.probe("lib-fault-rpc-not-compared")
 			continue
 		}
+		if p.RPCs[i].Backend.CloseBody == "writer-early" {
+			// whether the reading goroutine finishes before the other one closes the body is the schedule's choice: this RPC's
+			// own outcome may differ from its solo run; ownership, panics, races and the other RPCs are still judged
+			v.probe("early-close-rpc-not-compared")
+			continue
+		}
 		if p.RPCs[i].Relaxed && requestMalformed(p, i) {
 			// one side fails while the other is active: whatever the interleaving, the client must get a well-formed response
 			// with exactly one terminal disposition, responses being a prefix of those sent, and never a success
@@ -140,14 +146,17 @@ func init() {
 				}
 				if dup {
 					r.Backend.Mode = "duplex"
-					if c.Prob(0.4) && len(r.Client.Msgs) > 0 {
+					if c.Prob(0.3) {
+						r.Backend.CloseBody = "writer-early"
+					}
+					if c.Prob(0.5) && len(r.Client.Msgs) > 0 {
 						// a request-side failure while the response side is busy
 						r.Relaxed = true
 						k := c.Intn(len(r.Client.Msgs))
-						switch c.Intn(3) {
+						switch c.Intn(4) {
 						case 0:
 							r.Client.Msgs[k].RawPayload = c.Bytes(c.Range(1, 20))
-						case 1:
+						case 1, 2:
 							f := Pick(c, 2, 4, 0x80, 0xff)
 							r.Client.Msgs[k].Flags = &f
 						default:
@@ -157,6 +166,10 @@ func init() {
 							r.Backend.Resp.Msgs = []MsgSpec{smallMsg(), smallMsg()}
 						}
 						r.Backend.Resp.WriteMode, r.Backend.Resp.WriteSizes = "sizes", []int{Pick(c, 1, 2, 3, 5, 7)}
+						// a backend that shrugs off its failed read (a proxy, a handler that only logs it) and ends with OK: what the
+						// transcoder itself found wrong with the request - an invalid envelope, which it rejects on every path - must
+						// still be the outcome. (Garbage payloads and short streams are for the backend to notice on the re-framing path.)
+						r.Backend.Lenient = r.Client.Msgs[k].Flags != nil && c.Prob(0.6)
 					}
 				} else if c.Prob(0.45) {
 					spoil(c, r, Pick(c, "cut", "corrupt-compressed", "backend-panic", "client-gone", "backend-garbage", "end-garbage", "end-garbage", "undecodable", "corrupt-response", "bad-validation", "lib-fault"))
